@@ -25,9 +25,9 @@ type scen struct {
 }
 
 func scenarios(thorough bool) []scen {
-	one := cfg{"singleblock-2ip", 1024, 1031, 4, 2, 4, true, 0} // 2 blocks per IP, 2 IPs
-	tiny := cfg{"nondividing-1ip", 1000, 1009, 3, 1, 4, false, 0}
-	tinyBulk := cfg{"nondividing-1ip-bulk", 1000, 1009, 3, 1, 4, true, 0}
+	one := cfg{"singleblock-2ip", 1024, 1031, 4, 2, 4, true, 0, 0} // 2 blocks per IP, 2 IPs
+	tiny := cfg{"nondividing-1ip", 1000, 1009, 3, 1, 4, false, 0, 0}
+	tinyBulk := cfg{"nondividing-1ip-bulk", 1000, 1009, 3, 1, 4, true, 0, 0}
 	s := []scen{
 		{"A0|A0", one, nil, [][]string{{"A0"}, {"A0"}}},
 		{"A0|A1", one, nil, [][]string{{"A0"}, {"A1"}}},
